@@ -198,7 +198,7 @@ def classify_crash(pid, crash, seed, tier, replay_dir, known):
             outs.append(outs[0])       # a replayed hang is not replayed twice
             break
         try:
-            p = subprocess.run(cmd, stdout=subprocess.PIPE, stderr=subprocess.PIPE, env=env, cwd=ROOT, timeout=HANG_LIMIT[tier])
+            p = subprocess.run(cmd, stdout=subprocess.PIPE, stderr=subprocess.PIPE, env=env, cwd=ROOT, timeout=3 * HANG_LIMIT[tier])
             outs.append((p.returncode, p.stdout.decode("utf-8", "replace"), p.stderr.decode("utf-8", "replace")))
         except subprocess.TimeoutExpired as e:
             outs.append((-9, (e.stdout or b"").decode("utf-8", "replace"), "timeout"))
@@ -302,7 +302,10 @@ def main():
     messages = []
     violations = list(agg.get("violations", []))
     # 3. crashed runs -> classified by a fresh-process replay
-    for c in agg.get("crashes", []):
+    crashes = agg.get("crashes", [])
+    if len(crashes) > 8:
+        messages.append("NOTE %d further worker crashes were not classified individually" % (len(crashes) - 8))
+    for c in crashes[:8]:
         cc = classify_crash(pid, c, seed, tier, replay_dir, known)
         kind, val = cc[0], cc[1]
         if kind == "violations":
